@@ -1,2 +1,3 @@
+pub mod conc;
 pub mod project;
 pub mod variants;
